@@ -8,6 +8,8 @@
   the C08 correspondence, hook `VerifHasSubKeys`).
 -/
 import Mxj.Model.Path
+import Mxj.Model.Denote
+import Mxj.Model.KeySpec
 namespace Mxj.C08
 open Mxj
 
@@ -37,5 +39,41 @@ theorem C08_size_early_out_unsound :
 /-- … and the empty node satisfies a negated-absent condition -/
 theorem C08_empty_node_matches : hasSubKeys (.map []) [("!k".toList, .str "*".toList)] = true := by
   decide
+
+/-! ### the recorded finding F-NESTED-LIST as a theorem
+
+`C08_paths_values` (values through the paths ~ ValuesForKey) carries the hypothesis
+`Denote.noListInList m`.  It is needed: on a list directly inside a list the key walker descends,
+the path walker does not (one-level "a list stands for its members"), so the value found by
+`ValuesForKey` is not reachable through the path `PathsForKey` reports.  The same Map is the
+reproducer of the `finding:` line in known_findings.txt and is replayed on the implementation by
+the C08 consistency oracle (signature `pfk:consistency:list-in-list`). -/
+
+/-- `{"a":[[{"k":1}]]}` : a list directly inside a list -/
+def nestedSample : Val := .map [(['a'], .list [.list [.map [(['k'], .num ['1'])]]])]
+
+example : Denote.noListInList nestedSample = false := by decide
+example : nestedSample.wf = true ∧ KeySpec.pathSafe nestedSample = true
+    ∧ KeySpec.keySafe ['k'] = true := by decide
+
+/-- every other hypothesis of `C08_paths_values` holds of `nestedSample`, `ValuesForKey("k")`
+    returns `[1]`, `PathsForKey("k")` returns `["a.k"]`, and `ValuesForPath("a.k")` returns nothing -/
+theorem C08_list_in_list_witness :
+    hasKey ['k'] [] nestedSample = [.num ['1']]
+    ∧ pathsForKey nestedSample ['k'] = [['a', '.', 'k']]
+    ∧ (pathsForKey nestedSample ['k']).flatMap (fun p => oldValues none nestedSample p) = [] := by
+  refine ⟨by decide, by decide, ?_⟩
+  have hp : pathsForKey nestedSample ['k'] = [['a', '.', 'k']] := by decide
+  have hk : pathKeys ['a', '.', 'k'] = [['a'], ['k']] := by decide
+  rw [hp]
+  simp [oldValues, hk, nestedSample, walk, lookup]
+
+/-- hence the conclusion of `C08_paths_values` fails there: the hypothesis cannot be dropped -/
+theorem C08_paths_values_needs_no_list_in_list :
+    ¬ List.Perm ((pathsForKey nestedSample ['k']).flatMap fun p => oldValues none nestedSample p)
+        (hasKey ['k'] [] nestedSample) := by
+  rw [C08_list_in_list_witness.2.2, C08_list_in_list_witness.1]
+  intro h
+  exact absurd h.length_eq (by decide)
 
 end Mxj.C08
